@@ -17,6 +17,7 @@ import ElfioVerif.Model.Inspect
 import ElfioVerif.Props.C13
 import ElfioVerif.Props.C08
 import ElfioVerif.Lemmas.Dynamic
+import ElfioVerif.Lemmas.SymbolsTie
 namespace ElfioVerif
 open Gen
 namespace Inspect
@@ -640,7 +641,7 @@ theorem sym_num_total (t : SymTab) : ∃ n, t.symbolsNum = .ok n ∧
       unfold sym_num_div; rw [BitVec.toNat_udiv]
     · rw [if_neg hc]
       exact ⟨0, rfl, fun h => absurd rfl h⟩
-  unfold SymTab.symbolsNum
+  rw [SymTab.symbolsNum_hand]
   cases hcl : t.cfg.cls
   · have := key sym_num_min32 16 (by decide) (by decide) (by rw [hcl]; rfl)
     rw [hcl] at this
